@@ -10,6 +10,7 @@ package lnwallet
 //@ load-pkg github.com/lightningnetwork/lnd/lntypes
 //@ inline-func (github.com/lightningnetwork/lnd/lntypes.ChannelParty).*
 //@ inline-pkg github.com/lightningnetwork/lnd/lntypes
+//@ load-pkg github.com/lightningnetwork/lnd/lnwire
 //@
 //@ extern func (lnwire.MilliSatoshi) ToSatoshis
 //@   ensures result == fdiv(m, 1000)
@@ -922,6 +923,12 @@ package lnwallet
 //@        arg(inputs).OurKey.PubKey == lc.channelState.LocalChanCfg.MultiSigKey.PubKey &&
 //@        arg(inputs).TheirKey.PubKey == lc.channelState.RemoteChanCfg.MultiSigKey.PubKey &&
 //@        arg(inputs).SignDesc == lc.signDesc && arg(signer) == lc.Signer
+//@   // taproot: the verification nonce is re-derived for the height of the commitment that is broadcast (the current, unrevoked one - not
+//@   // the tip of the local chain, which is one ahead between receiving a commitment and revoking the old one)
+//@   site call GetSignedCommitTx as taproot-inputs: assert arg(inputs).Taproot.isSome == lc.channelState.ChanType.IsTaproot() &&
+//@        (arg(inputs).Taproot.isSome ==> arg(inputs).Taproot.some.CommitHeight == lc.currentHeight &&
+//@         arg(inputs).Taproot.some.TaprootNonceProducer == lc.taprootNonceProducer &&
+//@         arg(inputs).Taproot.some.TapscriptRoot == lc.channelState.TapscriptRoot)
 //@
 //@ func GetSignedCommitTx
 //@   props C05
@@ -933,6 +940,10 @@ package lnwallet
 //@        arg(4) == retn(ParseDERSignature, 0) && arg(1) == ret(SerializeCompressed, 0) && arg(3) == ret(SerializeCompressed, 1)
 //@   site call SerializeCompressed nth 0: assert arg(0) == *inputs.OurKey.PubKey
 //@   site call SerializeCompressed nth 1: assert arg(0) == *inputs.TheirKey.PubKey
+//@   site call NewMusigVerificationNonce: assert arg(0) == inputs.OurKey.PubKey && arg(1) == inputs.Taproot.some.CommitHeight &&
+//@        arg(2) == inputs.Taproot.some.TaprootNonceProducer && inputs.Taproot.isSome
+//@   site call NewPartialMusigSession as nonce-and-output: assert arg(0) == *retn(NewMusigVerificationNonce, 0) && retn(NewMusigVerificationNonce, 1) == nil &&
+//@        arg(4) == inputs.SignDesc.Output && arg(5) == LocalMusigCommit
 //@   site call NewPartialMusigSession: assert arg(1).PubKey == inputs.OurKey.PubKey && arg(2).PubKey == inputs.TheirKey.PubKey && arg(3) == signer
 //@   site call SignCommit: assert arg(1) == ret(Copy)
 //@   ensures result1 == nil ==> result0 == ret(Copy)
